@@ -5,7 +5,7 @@ import sockgen as G
 
 RULE = ("families bauth (BasicAuthMiddleware::process consulted in the headersParsed slot of a Socket over SimTcp) and b64 "
         "(fromBase64/toBase64 vs. model); credential tables <= 4 users incl. prefix/case-variant users, empty and colon passwords, "
-        "re-registered users; header values: valid credentials and structured near misses (scheme case, 0/2 spaces, tab, truncated / "
+        "re-registered users; histories on ONE middleware instance (registrations and password rotations between connections, the same header replayed); header values: valid credentials and structured near misses (scheme case, 0/2 spaces, tab, truncated / "
         "padded / over-padded / dirty token, other user's password, prefix, case change, missing colon, missing header) + random bytes")
 ASSUMPTIONS = ["'base64-decodes to' is Qt's decoder (characters outside the alphabet are skipped): a token with junk characters still carries exact credentials",
                "users and passwords are valid UTF-8 (the middleware converts through QString)"]
@@ -62,3 +62,30 @@ def cases(tier, seed, ctx=None):
         ops = [G.Construct] + [G.Feed(s) for s in rng.partition(head)] + [G.Turn]
         meta = [9, realm, table, hv if hv is not None else b"", 1 if hv is not None else 0]
         yield ("bauth", [realm, table, ops, env, meta], tag)
+    # one middleware instance across a history: registrations change between connections; the same header is replayed
+    def conn(hv):
+        lines = [b"Host: h"] + ([b"Authorization: " + hv] if hv is not None else [])
+        head = b"GET /x HTTP/1.1\r\n" + b"\r\n".join(lines) + b"\r\n\r\n"
+        return [1, [G.Construct] + [G.Feed(s) for s in rng.partition(head)] + [G.Turn], [hv if hv is not None else b"", 1 if hv is not None else 0]]
+    for _ in range(150 if tier == "quick" else 2500):
+        realm = rng.choice([b"R", b"My Realm"])
+        steps = []
+        known = []
+        last = None
+        for _ in range(rng.range(2, 8)):
+            k = rng.below(10)
+            if k < 3 or not known:
+                u, p = rng.choice(USERS), rng.choice(PASSES)
+                steps.append([0, u, p]); known.append((u, p))
+            elif k < 5:      # password rotation for a known user
+                u, _ = rng.choice(known); p = rng.choice(PASSES)
+                steps.append([0, u, p]); known.append((u, p))
+            elif k < 8:
+                u, p = rng.choice(known)
+                last = b"Basic " + base64.b64encode(u + b":" + p)
+                steps.append(conn(last))
+            elif last is not None:
+                steps.append(conn(last))         # the identical header again, whatever happened in between
+            else:
+                steps.append(conn(rng.choice([None, b"Basic " + base64.b64encode(rng.choice(USERS) + b":" + rng.choice(PASSES))])))
+        yield ("bauthm", [realm, steps, env], "history")
